@@ -973,6 +973,27 @@ def trans_lines(name, p, a, b):
     return None
 
 
+def closed_form_condition(name, p, a, b):
+    """condition of a closed form that is a product over the dimensions of differences F(u_b) - F(u_a) of a SATURATING
+    antiderivative (erf for GenzGaussian, arctan for GenzProductPeak), computed with the code's own F:
+    sum_d (|F(u_b)| + |F(u_a)|) / |F(u_b) - F(u_a)|.  Each factor carries the relative rounding error eps * that quotient
+    ("up to rounding" in the property's sense); inf if a difference rounds to 0.  0 for the other classes."""
+    import scipy.special
+    tot = 0.0
+    for d in range(len(a)):
+        if name == "GenzGaussian":
+            sq = math.sqrt(p["c"][d])
+            fa, fb = scipy.special.erf(sq * (a[d] - p["m"][d])), scipy.special.erf(sq * (b[d] - p["m"][d]))
+        elif name == "GenzProductPeak":
+            fa, fb = math.atan(p["c"][d] * (p["m"][d] - a[d])), math.atan(p["c"][d] * (p["m"][d] - b[d]))
+        else:
+            return 0.0
+        if fb == fa:
+            return float("inf")
+        tot += (abs(fb) + abs(fa)) / abs(fb - fa)
+    return tot
+
+
 def run_integral(ctx, drv, case):
     name, params, a, b = case["cls"], case["params"], case["a"], case["b"]
     cname = "CustomFunction" if name == "BaseClassQuadrature" else name
@@ -1121,7 +1142,14 @@ def run_integral(ctx, drv, case):
         if err > 1e-9 * max(unit, abs(num)):
             ctx.count("nquad_inaccurate_skipped")
             continue
-        if not abs(ana_vec[comp] - num) <= 1e-7 * max(unit, abs(num)):
+        # allowed relative error: 1e-7 plus the rounding error the code's own closed form carries when it subtracts two
+        # nearly equal values of a saturating antiderivative (erf tails, arctan tails)
+        cond = closed_form_condition(name, params, a, b)
+        allowed = 1e-7 + 4 * 2.220446049250313e-16 * cond
+        if allowed > 1e-3:
+            ctx.count("gaussian_tail_ill_conditioned")
+            continue
+        if not abs(ana_vec[comp] - num) <= allowed * max(unit, abs(num)):
             if report(ctx, "analytic-vs-numeric", tags, case,
                       {"analytic": ana_vec[comp], "numeric": num, "numeric_error_estimate": err, "method": how,
                        "component": comp, "exact_model": str(exact) if exact is not None else None}):
